@@ -21,7 +21,7 @@ ASSUMPTIONS = ["coefficient functions and the SDE drift are evaluated through th
                "copula drivers in dimension 2 (finite and infinite variation); the Libor model with independent components is refused by the library (NotImplementedError: no copula density)",
                "df is explored on [0, last tenor]"]
 REQUIRED_COUNTERS = ["single_paths", "coupled_paths", "constant_closed_form", "diagonal_closed_form", "df_meshes", "epsilon_checks",
-                     "copula_driver_cases", "libor_copula_driver_cases", "rates_fixing_before_maturity", "initial_value_given_as_int_or_list"]
+                     "copula_driver_cases", "libor_copula_driver_cases", "libor_coupled_paths", "rates_fixing_before_maturity", "initial_value_given_as_int_or_list"]
 MIN_NONTRIVIAL = {"quick": 40, "thorough": 500}
 THOROUGH_ROUNDS = 3      # the thorough tier runs the generators this many times (different seeds)
 SHARD_TIMEOUT = {"quick": 900, "thorough": 7200}
@@ -282,8 +282,6 @@ def _sde(case, R):
         if times.size >= 3:
             R.nontrivial_case("sde", case["seed"], coef, d)
     # ---- coupled process -------------------------------------------------------------------------------------------------------------------
-    if isinstance(model, LevyLiborModel):
-        return
     try:
         from rpylib.montecarlo.path import MLMCPath
 
@@ -314,6 +312,8 @@ def _sde(case, R):
             for _ in range(3):
                 path = cp.simulate_one_path_with_coupling()
                 R.hit("coupled_paths")
+                if isinstance(model, LevyLiborModel):
+                    R.hit("libor_coupled_paths")
                 drv = cap2[-1]
                 times = np.asarray(drv.jump_times, dtype=float)
                 if np.any(np.diff(times) > cp.epsilon * (1 + 1e-9)):
